@@ -288,6 +288,41 @@ namespace vt
       G.max_depth = md;
    }
 
+   // bounds (C03): exact-size heap block (the harness is built with AddressSanitizer for this family), and slices whose
+   // surroundings would extend a match -- the last byte repeated, digits, UTF-8 continuation bytes
+   template< typename Root >
+   void cfgs_oob( const std::string& sigma, int maxlen )
+   {
+      g().fuel_cases = 0;
+      for_all_strings( sigma, maxlen, [ & ]( const std::string& s ) {
+         if( g().fuel_cases >= 3 )
+            return;
+         CaseCfg c;
+         run_memory_case< Root, pegtl::nothing, tc_hid, AA, MR, TE, LFCRLF >( c, s );
+         run_memory_case< Root, fam1, tc_hid, AA, MO, TL, LFCRLF >( c, s );
+         const std::string rep = s.empty() ? std::string( "aaaa" ) : std::string( 4, s.back() );
+         run_slice_case< Root, pegtl::nothing, tc_hid, AA, MR, TE, LFCRLF >( c, s, rep );
+         run_slice_case< Root, pegtl::nothing, tc_hid, AA, MO, TL, LFCRLF >( c, s, "1234" );
+         run_slice_case< Root, fam1, tc_hid, AA, MR, TE, LFCRLF >( c, s, std::string( "\x80\xbf\x80\x80", 4 ) );
+         run_slice_case< Root, pegtl::nothing, tc_hid, AA, MR, TE, LFCRLF >( c, s, sigma + sigma );
+      } );
+   }
+
+   template< typename Root >
+   void cfgs_oob4( const std::string& sigma, int maxlen )   // the same with the limits family (limit_bytes lowers the end)
+   {
+      g().fuel_cases = 0;
+      for_all_strings( sigma, maxlen, [ & ]( const std::string& s ) {
+         if( g().fuel_cases >= 3 )
+            return;
+         CaseCfg c;
+         run_memory_case< Root, fam4, tc_hid, AA, MR, TE, LFCRLF >( c, s );
+         const std::string rep = s.empty() ? std::string( "aaaa" ) : std::string( 4, s.back() );
+         run_slice_case< Root, fam4, tc_hid, AA, MR, TL, LFCRLF >( c, s, rep );
+         run_slice_case< Root, fam4, tc_hid, AA, MO, TE, LFCRLF >( c, s, sigma + sigma );
+      } );
+   }
+
    // all five end-of-line policies, eager and lazy (C06)
    template< typename Root >
    void cfgs_eol( const std::string& sigma, int maxlen )
